@@ -105,7 +105,7 @@ func (g *specGen) next() callSpec {
 				r := gen.RuleList(rng, sf.Type, 2, fmt.Sprintf("%s_%d", id, f), gen.MsgUnique, false)
 				if rng.Intn(2) == 0 {
 					// same rule keys as the field's own tag, other arguments
-					if pr := gen.PerturbRules(rng, sf.Tag.Get(c08Tags[rng.Intn(3)]), sf.Type, fmt.Sprintf("%s_%d", id, f)); pr != "" {
+					if pr := gen.PerturbRules(rng, sf.Tag.Get(c08Tags[rng.Intn(len(c08Tags))]), sf.Type, fmt.Sprintf("%s_%d", id, f)); pr != "" {
 						r = pr
 					}
 				}
@@ -121,6 +121,7 @@ func (g *specGen) next() callSpec {
 				rm[sf.Name] = r
 			}
 		}
+		shareTail(rng, rm, id+"_sh")
 		return rm
 	}
 	structPreds := func(in interface{}, t reflect.Type) []func() {
@@ -247,7 +248,7 @@ func (g *specGen) next() callSpec {
 		t := pickType()
 		tag := "valid"
 		if kind != "Struct" {
-			tag = c08Tags[rng.Intn(3)]
+			tag = c08Tags[rng.Intn(len(c08Tags))]
 		}
 		v := ptrTo(tunedFill(rng, t, tag, 0.15))
 		in := v.Interface()
